@@ -255,7 +255,7 @@ type refImg struct {
 type interference struct {
 	Phase string `json:"s_at"`
 	Tok   string `json:"step"`
-	What  string `json:"changed"`
+	What  string `json:"changed_under_captured_view"`
 }
 
 type world struct {
@@ -277,13 +277,13 @@ type world struct {
 	lastTXID uint64
 
 	// writer program
-	wpc   string // idle | hdr | frames | end | jlock | jpages | jrb | jfinal | jend
-	plan  sim.Plan
-	todo  []int
-	mx    int // committed frames of the current log generation
-	bf    int // frames backfilled by a client checkpoint
-	salt  int
-	oldN  int
+	wpc  string // idle | hdr | frames | end | jlock | jpages | jrb | jfinal | jend
+	plan sim.Plan
+	todo []int
+	mx   int // committed frames of the current log generation
+	bf   int // frames backfilled by a client checkpoint
+	salt int
+	oldN int
 	// client checkpointer program
 	cpc    string // idle | read0 | trunc | end
 	ckind  string
@@ -298,9 +298,9 @@ type world struct {
 	exact     bool
 	inexactAt string
 	log       []Tok
-	capLen    int64 // log size when S finished its capture (-1 = not captured yet)
-	prevDB    []byte
-	prevWAL   []byte
+	capLen    int64 // -1 = S has not finished its capture yet
+	viewAt    map[uint32]viewLoc
+	viewPrev  map[uint32][]byte
 	interf    []interference
 	anomaly   string
 	evals     int
@@ -591,7 +591,12 @@ func (w *world) doS(t Tok) {
 	}
 }
 
-// ---- files as S may read them (for classifying a failure, never for deciding one)
+// ---- the bytes S is going to read, as fixed by its capture (for classifying a failure, never for deciding one)
+
+type viewLoc struct {
+	wal bool
+	off int64
+}
 
 func (w *world) readFiles() (dbb, wal []byte) {
 	dir := w.node.DBDir(w.name)
@@ -600,36 +605,79 @@ func (w *world) readFiles() (dbb, wal []byte) {
 	return
 }
 
+// readView returns, per real page, the bytes currently at the place the captured view points to:
+// the log at the frame offset SQLite's wal-index (= LiteFS's frameOffsets while WRITE was held by S)
+// named at capture time, or the database file. A short file yields nil for that page.
+func (w *world) readView() map[uint32][]byte {
+	dbb, wal := w.readFiles()
+	ps := int64(w.lay.PageSize)
+	out := make(map[uint32][]byte, len(w.viewAt)+1)
+	// key 0: the log header (salts) if the view reads from the log - a restarted or cut log invalidates
+	// the captured offsets even before the frames behind them are overwritten
+	for _, l := range w.viewAt {
+		if l.wal {
+			if len(wal) >= 32 {
+				out[0] = wal[:32]
+			} else {
+				out[0] = nil
+			}
+			break
+		}
+	}
+	for r, l := range w.viewAt {
+		src := dbb
+		if l.wal {
+			src = wal
+		}
+		if l.off+ps <= int64(len(src)) {
+			out[r] = src[l.off : l.off+ps]
+		} else {
+			out[r] = nil
+		}
+	}
+	return out
+}
+
 func (w *world) captureFiles() {
-	w.prevDB, w.prevWAL = w.readFiles()
-	w.capLen = int64(len(w.prevWAL))
+	w.viewAt = map[uint32]viewLoc{}
+	ps := int64(w.lay.PageSize)
+	for r := uint32(1); r <= w.pg.RealSize(); r++ {
+		if i, ok := w.pg.InWAL(r); ok && w.conc.Mode == "wal" {
+			w.viewAt[r] = viewLoc{true, w.frameOff(i) + 24}
+		} else {
+			w.viewAt[r] = viewLoc{false, int64(r-1) * ps}
+		}
+	}
+	w.viewPrev = w.readView()
+	w.capLen = 0
 }
 
 func (w *world) noteInterference(t Tok) {
 	if w.capLen < 0 || w.s == nil || w.s.done {
 		return
 	}
-	dbb, wal := w.readFiles()
-	what := ""
-	if !bytes.Equal(dbb, w.prevDB) {
-		what = "database-file"
-	}
-	a, b := w.prevWAL, wal
-	if int64(len(a)) > w.capLen {
-		a = a[:w.capLen]
-	}
-	if int64(len(b)) > w.capLen {
-		b = b[:w.capLen]
-	}
-	if !bytes.Equal(a, b) {
-		if what != "" {
-			what += "+"
+	cur := w.readView()
+	var changed []string
+	for r, b := range cur {
+		if !bytes.Equal(b, w.viewPrev[r]) || (b == nil) != (w.viewPrev[r] == nil) {
+			src := "db"
+			if w.viewAt[r].wal {
+				src = "log"
+			}
+			if r == 0 {
+				changed = append(changed, "0(log header: restarted or cut)")
+				continue
+			}
+			changed = append(changed, fmt.Sprintf("%d(%s)", r, src))
 		}
-		what += "log-below-captured-end"
 	}
-	w.prevDB, w.prevWAL = dbb, wal
-	if what != "" {
-		w.interf = append(w.interf, interference{Phase: w.s.phase, Tok: t.A + ":" + t.Op, What: what})
+	w.viewPrev = cur
+	if len(changed) > 0 {
+		sort.Strings(changed)
+		if len(changed) > 6 {
+			changed = append(changed[:6], "...")
+		}
+		w.interf = append(w.interf, interference{Phase: w.s.phase, Tok: t.A + ":" + t.Op, What: "pages " + strings.Join(changed, ",")})
 	}
 }
 
@@ -1122,15 +1170,16 @@ type violation struct {
 func (w *world) sigFor(what string) string {
 	base := w.conc.Kind + "/" + w.conc.Mode + "/"
 	if len(w.interf) == 0 {
-		return base + what + "/no-file-change-after-capture"
+		return base + what + "/captured-view-unchanged"
 	}
-	// the first change of the files the attempt reads from, after it has fixed its view: everything
-	// later (e.g. appends that refill a log that was cut) is a consequence
+	// the first change of the bytes the captured view points to (database pages not in the log, log
+	// frames at the captured offsets): everything later (e.g. appends that refill a log that was cut)
+	// is a consequence
 	first := w.interf[0].Phase
 	if windowPhases[first] {
-		return base + "stale-view/first-file-change-between-WRITE-unlock-and-READ-locks"
+		return base + "stale-view/captured-view-first-changed-between-WRITE-unlock-and-READ-locks"
 	}
-	return base + what + "/first-file-change-while-at:" + first
+	return base + what + "/captured-view-first-changed-while-at:" + first
 }
 
 // judge evaluates the property on an attempt that has returned.
@@ -1195,7 +1244,7 @@ func (w *world) judge() outcome {
 	out.TXID = txid
 	detail["reported_txid"] = txid
 	detail["reported_checksum"] = fmt.Sprintf("%016x", chk)
-	detail["interference_after_capture"] = w.interf
+	detail["changes_under_captured_view"] = w.interf
 	detail["schedule"] = w.logString()
 
 	// clause 1: the reported position is a committed position
